@@ -52,6 +52,28 @@ func (s *Server) Definition(ctx context.Context, params *protocol.DefinitionPara
 }
 
 func findDefinitionTarget(journal *ast.Journal, pos protocol.Position) *definitionTarget {
+	// a declaration is an occurrence too: the name in an account or commodity directive
+	for _, dir := range journal.Directives {
+		switch d := dir.(type) {
+		case ast.AccountDirective:
+			if d.Account.Name != "" && positionInRange(pos, d.Account.Range) {
+				return &definitionTarget{
+					context:     DefContextAccount,
+					name:        d.Account.Name,
+					symbolRange: astRangeToProtocol(d.Account.Range),
+				}
+			}
+		case ast.CommodityDirective:
+			if d.Commodity.Symbol != "" && positionInRange(pos, d.Commodity.Range) {
+				return &definitionTarget{
+					context:     DefContextCommodity,
+					name:        d.Commodity.Symbol,
+					symbolRange: astRangeToProtocol(d.Commodity.Range),
+				}
+			}
+		}
+	}
+
 	for i := range journal.Transactions {
 		tx := &journal.Transactions[i]
 
@@ -79,19 +101,37 @@ func findDefinitionTarget(journal *ast.Journal, pos protocol.Position) *definiti
 				}
 			}
 
-			if p.Amount != nil && p.Amount.Commodity.Symbol != "" {
-				if positionInRange(pos, p.Amount.Commodity.Range) {
-					return &definitionTarget{
-						context:     DefContextCommodity,
-						name:        p.Amount.Commodity.Symbol,
-						symbolRange: astRangeToProtocol(p.Amount.Commodity.Range),
-					}
+			if p.Amount != nil {
+				if target := commodityTargetAt(&p.Amount.Commodity, pos); target != nil {
+					return target
+				}
+			}
+			// a cost and a balance assertion name a commodity too
+			if p.Cost != nil {
+				if target := commodityTargetAt(&p.Cost.Amount.Commodity, pos); target != nil {
+					return target
+				}
+			}
+			if p.BalanceAssertion != nil {
+				if target := commodityTargetAt(&p.BalanceAssertion.Amount.Commodity, pos); target != nil {
+					return target
 				}
 			}
 		}
 	}
 
 	return nil
+}
+
+func commodityTargetAt(c *ast.Commodity, pos protocol.Position) *definitionTarget {
+	if c.Symbol == "" || !positionInRange(pos, c.Range) {
+		return nil
+	}
+	return &definitionTarget{
+		context:     DefContextCommodity,
+		name:        c.Symbol,
+		symbolRange: astRangeToProtocol(c.Range),
+	}
 }
 
 func findDefinitionLocation(target *definitionTarget, resolved *include.ResolvedJournal, currentPath string, currentJournal *ast.Journal) *protocol.Location {
